@@ -4,15 +4,15 @@ from vf.common import Harness, REPO
 
 LEVEL = "model_checking"
 TECHNIQUE = ("CBMC bounded symbolic execution of module parsing units on attacker-controlled data inside an exactly-sized object "
-             "(elf.c str_table_entry/is_valid_ptr; pe_utils.c pe_get_header/pe_rva_to_offset on all-symbolic buffers), object tree as a checking sink, "
+             "(elf.c str_table_entry/is_valid_ptr; pe_utils.c pe_get_header/pe_rva_to_offset on all-symbolic buffers; dotnet.c blob / compressed-integer / string-heap readers), object tree as a checking sink, "
              "--unwinding-assertions as the termination certificate inside the bound")
 ASSUMPTIONS = [
     "UNIT level only: whole module_load runs on arbitrary buffers are out of reach (DESIGN P9: one 80-byte ELF header parse 397 s / 9.5 GB, 128 bytes out of memory); "
-    "the units are the string-table lookup of the ELF module and the PE header locator + RVA translation; the PE export-table parser was probed and does not finish (DESIGN 9.7); imports, resources, rich header, version info, .NET, Mach-O, DEX, authenticode (OpenSSL) are NOT covered",
+    "the units are the string-table lookup of the ELF module, the PE header locator + RVA translation and four leaf readers of the .NET module; the PE export-table parser was probed and does not finish (DESIGN 9.7); imports, resources, rich header, version info, .NET, Mach-O, DEX, authenticode (OpenSSL) are NOT covered",
     "strnlen is modelled by the obvious loop",
     "'releases everything it allocated' is not checked here (the units allocate nothing); leaks are C16",
 ]
-LEVEL_TEXT = "Bounded model checking of three parsing units for every value of the file-controlled fields inside the bound: no access outside the data, loops terminate."
+LEVEL_TEXT = "Bounded model checking of four groups of parsing units for every value of the file-controlled fields inside the bound: no access outside the data, loops terminate."
 LEVEL_NOTE = "; ".join(ASSUMPTIONS)
 
 
@@ -39,6 +39,10 @@ def harnesses(ctx, tier):
     hs.append(Harness(name="H3_pe_rva_to_offset", src="c06/pe_header.c", includes=inc, defines=["-DVF_N=320", "-DVF_RVA=1"], unwind=3, timeout=900, mem_gb=16, unwind_funcs={"main": 322},
                       desc="pe_get_header then pe_rva_to_offset for ANY rva on ANY 320-byte buffer (<= 1 section header, placed by the symbolic SizeOfOptionalHeader): offset inside the data or -1",
                       bounds="320 bytes, all symbolic; rva any 64-bit value; NumberOfSections <= 1", functions=["pe_get_header", "pe_rva_to_offset"]))
+    hs.append(Harness(name="H4_dotnet_leaf_readers", src="c06/dotnet_leaf.c", includes=inc, unwind=10, timeout=600, mem_gb=12,
+                      desc="dotnet.c dotnet_parse_blob_entry / read_blob_unsigned / read_blob_signed / pe_get_dotnet_string with the cursor anywhere in (or at the end of) an 8-byte data window",
+                      bounds="8 bytes all symbolic, cursor 0..8, remaining length any value <= what is left, heap size any, string index <= 64",
+                      functions=["dotnet_parse_blob_entry", "read_blob_unsigned", "read_blob_signed", "pe_get_dotnet_string"], stubs=["memmem: loop model for a 1-byte needle"]))
     return hs + [
         Harness(name="H1_elf_str_table_entry", src="c06/elf_strtab.c", includes=inc, unwind=10, timeout=300,
                 desc="elf.c str_table_entry + is_valid_ptr on an arbitrary (possibly empty / inverted / ending at the end of the data) table window and index",
